@@ -32,6 +32,7 @@ namespace {
 //        13 wrong id 14 query instead of response 15 tiny datagram (arg bytes, 0..3) 16 chain of pointers
 //        20 a valid reply of more than 4096 bytes (larger than the client's receive buffer)
 //   burst <dt_ms> <n>     n lookups at once
+//   wrap <dt_ms> <k>      65530+k lookups made and cancelled at once: the lookups that follow get transaction ids around the 16-bit wrap (65535, 0, 1)
 //        18 good A records, then an A record with RDLENGTH 0-3 at the very end   19 an A record with RDLENGTH 5-8, then good ones
 //        21 an RCODE of 6..15 (YXDOMAIN, NOTAUTH, BADVERS...)   22/23 good A records, then a CNAME whose RDLENGTH points behind the
 //        end of the datagram and whose name is cut off by it (22 inside a label, 23 between labels)
@@ -46,6 +47,7 @@ void generate(sim::Rng &r, uint64_t seed, const std::string &tier, sim::Plan &p)
   int made = 1;
   // now and then many lookups at once (transaction ids in use at the same time must all be different)
   if (r.chance(60)) { sim::Op op; op.kind = "burst"; op.a = {r.range(0, 50), r.pick((const long[]){60, 250, 400})}; p.ops.push_back(op); }
+  if (r.chance(8)) { sim::Op op; op.kind = "wrap"; op.a = {r.range(0, 20), r.range(0, 8)}; p.ops.push_back(op); nreq = std::max(nreq, 3); }
   for (int i = 0; i < n; ++i) {
     sim::Op op;
     unsigned x = (unsigned)r.below(100);
@@ -266,6 +268,7 @@ void execute(const sim::Plan &plan) {
   sim::set_deadlock_handler([](const sim::DeadlockInfo &info) { sim::violation("C15/loop-never-wakes", "the loop blocks for ever before the end of the plan: " + info.summary); });
   sim::set_stepcap_handler([] { sim::violation("C15/livelock", "step cap reached"); });
   W = World();
+  for (const sim::Op &op : plan.ops) if (op.kind == "wrap") { sim::set_step_cap(8000000); break; }      // 65 thousand lookups are many steps, not a livelock
   sim::poison_recv_tail(true);        // bytes of the receive buffer behind the datagram are out of bounds for the parser
   W.srv = socket(AF_INET, SOCK_DGRAM, 0);
   struct sockaddr_in sa; memset(&sa, 0, sizeof sa); sa.sin_family = AF_INET; sa.sin_addr.s_addr = htonl(INADDR_LOOPBACK); sa.sin_port = 0;
@@ -291,6 +294,16 @@ void execute(const sim::Plan &plan) {
     } else if (op->kind == "burst") {
       tl.at(t, [op] {
         W.loop->runInLoop([op] { long n = std::max(1L, std::min(500L, op->arg(1))); for (long k = 0; k < n; ++k) issue_lookup((int)(k % 6), 0); sim::probe("burst_lookups", n); }, "c15.burst");
+      }, (int)i);
+    } else if (op->kind == "wrap") {
+      tl.at(t, [op] {
+        W.loop->runInLoop([op] {
+          long n = 65530 + std::max(0L, std::min(8L, op->arg(1)));
+          long fired = 0;
+          for (long k = 0; k < n; ++k) { auto id = W.dns->request(DomainName("w.example"), [&fired](const DnsRequest::Result &) { ++fired; }); W.dns->cancel(id); }
+          if (fired) sim::violation("C15/callback-after-cancel", "a lookup that was cancelled at once had its callback invoked");
+          sim::probe("id_wraps");
+        }, "c15.wrap");
       }, (int)i);
     } else if (op->kind == "cancel") {
       tl.at(t, [op] {
@@ -350,7 +363,7 @@ void execute(const sim::Plan &plan) {
     if (L.status == (int)DnsRequest::Result::Status::kAllDnsFail || L.status == (int)DnsRequest::Result::Status::kDomainError) {
       long server_fail = 0, name_error = 0;
       for (const Sent &s : W.sent) {
-        if (s.t < L.t_req || s.t > L.t_cb) continue;
+        if (s.t > L.t_cb) continue;      // (a datagram sent while no lookup was outstanding waits in the socket and can answer a later lookup that reuses its id)
         uint16_t id; bool resp; int rcode;
         ref_decode(s.bytes, id, resp, rcode);
         if (s.bytes.size() < 4 || id != L.id || !resp) continue;
